@@ -252,7 +252,7 @@ impl Module {
                             }
                             name => {
                                 log::debug!("parsing custom section `{}`", name);
-                                if name.starts_with(".debug") {
+                                if debug::is_dwarf_section_name(name) {
                                     debug_sections.push(RawCustomSection {
                                         name: name.to_string(),
                                         data: s.data().to_vec(),
@@ -395,7 +395,7 @@ impl Module {
         let indices = std::mem::take(cx.indices);
 
         for (_id, section) in customs.iter_mut() {
-            if section.name().starts_with(".debug") {
+            if debug::is_dwarf_section_name(section.name()) {
                 continue;
             }
 
